@@ -776,6 +776,7 @@ impl<Aux> Vm<'_, Aux> {
     /// As such running non-compiler emitted programs is very un-safe
     pub fn run(&mut self, program: &CaoCompiledProgram) -> ExecutionResult<()> {
         self.runtime_data.current_program = program as *const _;
+        let call_depth = self.runtime_data.call_stack.len();
         self.runtime_data
             .call_stack
             .push(CallFrame {
@@ -790,6 +791,11 @@ impl<Aux> Vm<'_, Aux> {
         self.remaining_iters = self.max_instr;
         let mut instr_ptr = 0;
         let result = self._run(&mut instr_ptr);
+        // drop the entry frame (and the frames of calls an error or Exit left unfinished), so
+        // that repeated runs on one VM do not use up the call stack
+        while self.runtime_data.call_stack.len() > call_depth {
+            self.runtime_data.call_stack.pop();
+        }
         self.runtime_data.current_program = std::ptr::null();
         result
     }
